@@ -93,10 +93,12 @@ fn run_scenario(case: &Value) -> Value {
         Err(e) => return json!({ "error": format!("config: {e:?}") }),
     };
     let build_platforms = BuildPlatforms::new_with_no_target().expect("host platform");
-    let profile = config
-        .profile("default")
-        .expect("default profile")
-        .apply_build_platforms(&build_platforms);
+    // the selected profile (the built-in default-miri and custom profiles inherit from default)
+    let profile_name = case["profile"].as_str().unwrap_or("default").to_owned();
+    let profile = match config.profile(&profile_name) {
+        Ok(p) => p.apply_build_platforms(&build_platforms),
+        Err(e) => return json!({ "error": format!("profile: {e:?}") }),
+    };
     let package = graph
         .metadata(&crate::common::package_id("a"))
         .expect("package in fixture graph");
@@ -119,7 +121,7 @@ fn run_scenario(case: &Value) -> Value {
     let double_spawn = DoubleSpawnInfo::disabled();
     let target_runner = TargetRunner::empty();
     let ctx = TestExecuteContext {
-        profile_name: "default",
+        profile_name: &profile_name,
         double_spawn: &double_spawn,
         target_runner: &target_runner,
     };
